@@ -421,6 +421,7 @@ class Translation(object):
         self.completes = []   # (model index, obs index, task, outcome)
         self.n_exec = {}
         self.skipped = None
+        self.crash = None     # (obs index, exception, model indices of the probes, stderr tail)
 
 
 def translate(case, obs):
@@ -455,9 +456,6 @@ def translate(case, obs):
                 for j in range(defs[t]['subs']):
                     tr.vals.append(['remove', sub_id(t, j)])
         elif kind == 'run':
-            if o['crash']:
-                tr.skipped = 'doit crashed: %s' % o['crash']
-                break
             always = bool(op[1].get('always'))
             # every invocation loads fresh task objects: what a calc_dep task delivered in an earlier run is gone
             for t, d in defs.items():
@@ -532,6 +530,22 @@ def translate(case, obs):
                         if tid in dc['calc'] and oc in ('ok', 'up-to-date'):
                             dl = delivered_saved.get(tid) or {}
                             both(['addcalc', c, list(dl.get('deps', []))])
+            if o['crash']:
+                # doit died with a traceback: the tasks without a closing report are probed on the model (an unhandled
+                # TypeError of MD5Checker on a state saved by TimestampChecker is an explicit `crash` of the model)
+                tr.skipped = 'doit crashed: %s' % o['crash']
+                probes = []
+                for name, p in per.items():
+                    tid = name_to_id(name)
+                    if out[name].startswith('other:') and tid < 100 and not defs[tid]['subs']:
+                        pl = o['plan'].get(str(tid)) or {}
+                        probes.append(len(tr.model))
+                        tr.model.append(['select', tid, always])
+                        probes.append(len(tr.model))
+                        tr.model.append(['complete', tid, pl.get('ok', True),
+                                         [[q, size_of(cid), cid] for q, cid, _ in pl.get('writes', [])], pl.get('vid')])
+                tr.crash = (i, o['crash'], probes, o.get('stderr'))
+                break
             # calc_dep trace predicates
             for c, dc in defs.items():
                 if not dc['calc'] or c not in o['kwargs'] or tname(c) not in out:
@@ -626,6 +640,18 @@ def _judge(case, obs, tr, msteps, psteps, vsteps, v):
         if msteps[idx].get('crashed') and (stop_at is None or i < stop_at):
             stop_at = i
             v.count('skipped:model-crash-or-ambiguous')
+    if tr.crash:
+        ci, exc, probes, stderr = tr.crash
+        predicted = any(msteps[j].get('status') == 'crash' or msteps[j].get('ambiguous') or msteps[j].get('crashed')
+                        for j in probes)
+        earlier = any(msteps[idx]['status'] == 'crash' for idx, i, t, oc, kw, always in tr.selects if i <= ci)
+        if stop_at is None or stop_at > ci:
+            stop_at = ci
+        if predicted or earlier:
+            v.count('skipped:crash-predicted-by-model')
+        else:
+            v.divergence = v.divergence or (ci, 'doit died with %s; the model does not crash there' % exc,
+                                            (stderr or '').strip().split('\n')[-3:], 'no crash')
     first_exec = {}
     # ---- K: status + kwargs
     for idx, i, t, oc, kw, always in tr.selects:
@@ -946,7 +972,7 @@ def gen_case(rng, parallel=False):
                 plan[str(t)] = {'ok': rng.random() < 0.9, 'vid': rng.choice([None, 1, 2, 3, 4, 5, 6, 7]), 'writes': []}
             elif r == 'group':
                 for j in range(d['subs']):
-                    plan[str(sub_id(t, j))] = {'ok': rng.random() < 0.93, 'vid': rng.randrange(1, 9), 'writes': []}
+                    plan[str(sub_id(t, j))] = {'ok': rng.random() < 0.93, 'vid': rng.choice([None, 1, 2, 3, 4, 5, 6, 7, 8]), 'writes': []}
             elif r == 'calc':
                 cands = [u for u in range(ntasks) if roles[u] == 'producer']
                 plan[str(t)] = {'ok': rng.random() < 0.92, 'writes': [],
